@@ -167,7 +167,7 @@ def run(ctx):
     CAL.update(runner.calibrate())
     quick = ctx['tier'] == 'quick'
     sms = ['fork', 'fork', 'fork', 'forkserver', 'spawn', 'threading']
-    bases = [base_scen(rng, k, sms[k % len(sms)]) for k in range(6 if quick else 18)]
+    bases = [base_scen(rng, k, sms[k % len(sms)]) for k in range(6 if quick else 9)]
     # 1. at which points of the library can a signal handler run in the main thread during the call?
     rec_runs = runner.run_many([with_sigint(b, {'mode': 'record'}, 'r') for b in bases], 'c17_rec', jobs=6)
     scens = []
@@ -181,7 +181,7 @@ def run(ctx):
         pick = keys if not quick else rng.sample(keys, min(len(keys), 14))
         for key in pick:
             hits = lines[key]
-            for hit in sorted({1, hits} if quick else {1, max(1, hits // 2), hits}):
+            for hit in sorted({1, hits}):
                 scens.append(with_sigint(b, {'mode': 'line', 'at': key, 'hit': hit, 'group': rng.random() < 0.3}, f'@{key}#{hit}'))
         for j in range(4 if quick else 20):
             scens.append(with_sigint(b, {'mode': 'time', 'delay': round(rng.uniform(0.0, 0.5), 3), 'group': rng.random() < 0.5}, f't{j}'))
